@@ -36,9 +36,9 @@ m = {
     "setup_cmd": "./setup.sh",
     "hooks": {
         "guard": "verif",
-        "enable": "no hook lives in /repo: every check copies /repo's working tree to a scratch directory, adds scheduler yield points there by source instrumentation (sim/instr) and builds it with go1.26.8 and a runtime overlay (lib/overlay.py); the build tag 'verif' is reserved and unused",
+        "enable": "every check copies /repo's working tree to a scratch directory, adds scheduler yield points there by source instrumentation (sim/instr) and builds it with go1.26.8, a runtime overlay (lib/overlay.py) and -tags verif (lib/build.py). The tag turns on the one guarded hook in /repo: s/fragswarm/verif_hook_on.go and p/mbapp/verif_hook_on.go export the starting value of the fragment message ids and of the message-box counter, which the simulation draws per run (header sizes depend on them, and they wrap at 2^32); with the tag off both start at 0 as before",
         "baseline_off_cmd": "python3 lib/baseline.py",
-        "source_commits": [],
+        "source_commits": ["cd18d4f"],
         "add_only": True,
     },
     "engines": [
